@@ -1,15 +1,18 @@
 package main
 
 import (
+	"bytes"
 	"crypto/sha256"
 	"encoding/json"
 	"fmt"
 	"os"
+	"os/exec"
 	"path/filepath"
 	"runtime/debug"
 	"runtime/pprof"
 	"sort"
 	"strconv"
+	"strings"
 	"time"
 )
 
@@ -115,6 +118,12 @@ func main() {
 	if !ok {
 		fmt.Fprintf(os.Stderr, "unknown property %s\n", id)
 		os.Exit(2)
+	}
+	if isolated[id] && os.Getenv("VERIF_CHILD") == "" {
+		os.Exit(runIsolated(id, tier, seed))
+	}
+	if mf := os.Getenv("VERIF_MARKER"); mf != "" {
+		workerMarker, _ = os.OpenFile(mf, os.O_RDWR|os.O_CREATE, 0o644)
 	}
 	budget := 75 * time.Second
 	if tier == "thorough" {
@@ -319,4 +328,49 @@ type RawViolation struct {
 	Text    string `json:"text"`
 	Payload any    `json:"payload"`
 	Known   string `json:"-"`
+}
+
+// isolated: checks whose body runs in a child process, so that a fatal runtime error (unrecoverable in Go:
+// "unlock of unlocked mutex", stack overflow, concurrent map writes ...) provoked by an injected fault or a
+// schedule is attributed to the case being executed instead of killing the checker without a verdict.
+var isolated = map[string]bool{"C17": true}
+
+func runIsolated(id, tier string, seed int) int {
+	start := time.Now()
+	marker := filepath.Join(scratchRoot(), fmt.Sprintf("marker-%s-%d", id, os.Getpid()))
+	defer os.Remove(marker)
+	cmd := exec.Command(os.Args[0], id, tier)
+	cmd.Env = append(os.Environ(), "VERIF_CHILD=1", "VERIF_MARKER="+marker)
+	cmd.Stdout = os.Stdout
+	var stderr bytes.Buffer
+	cmd.Stderr = &stderr
+	err := cmd.Run()
+	code := 0
+	if ee, ok := err.(*exec.ExitError); ok {
+		code = ee.ExitCode()
+	} else if err != nil {
+		fmt.Fprintf(os.Stderr, "cannot run the child process: %v\n", err)
+		return 2
+	}
+	if code == 0 || code == 1 {
+		os.Stderr.Write(stderr.Bytes())
+		return code
+	}
+	// the child died: attribute it to the case it was executing
+	mb, _ := os.ReadFile(marker)
+	last := strings.TrimRight(string(mb), "\x00")
+	tail := stderr.String()
+	if i := strings.Index(tail, "fatal error"); i >= 0 {
+		tail = tail[i:]
+	}
+	if len(tail) > 1500 {
+		tail = tail[:1500]
+	}
+	c := &Ctx{ID: id, Tier: tier, Seed: seed, Start: start, KF: LoadKnownFindings()}
+	res := &Result{States: 1, Transitions: 1, Samples: []any{last}, Assumptions: []string{"the child process executing the check died; the case it was executing is reported"}}
+	f := false
+	res.Exhaustive = &f
+	text := fmt.Sprintf("the process died (exit code %d) while executing: %s :: %s", code, last, oneLine(tail))
+	rawViolation(c, res, text, map[string]any{"case": last, "stderr": tail})
+	return finish(c, res)
 }
